@@ -16,11 +16,11 @@ use serde_json::json;
 pub const SPEC: PropSpec = PropSpec {
 	id: "C06",
 	level: "exploration",
-	rule: "direction A (crate writes; half of the files through a sink that accepts only part of each write): files from the C05 workload plus random user metadata maps (0..8 keys, binary values) are un-framed by the reference parser: magic, metadata map with avro.schema JSON-equal to Schema::json() and avro.codec = specification name, every user key with exact bytes, 16-byte sync, blocks of (count, size, codec-framed data, same sync); decoded values == written; for deflate/bzip2/xz a sample of files is additionally un-framed by tools/ocf_ref.py (python zlib raw / bz2 / lzma, stream must be terminated with nothing after it; block counts, raw lengths and CRC-32 compared); apache-avro reads a fixed-shape sample. direction B (crate reads): the reference writer produces any block partitioning incl. zero-count blocks, shuffled metadata order, extra keys, metadata map split in several blocks / negative-count blocks, avro.codec absent or \"null\", all six codecs; apache-avro-written files for its codecs; the crate's Reader (slice / BufReader / chunked) must yield exactly the values. distinct by hash(file bytes)",
+	rule: "direction A (crate writes; half of the files through a sink that accepts only part of each write): files from the C05 workload plus random user metadata maps (0..8 keys, binary values) are un-framed by the reference parser: magic, metadata map with avro.schema JSON-equal to Schema::json() and avro.codec = specification name, every user key with exact bytes, 16-byte sync, blocks of (count, size, codec-framed data, same sync); decoded values == written; for deflate/bzip2/xz a sample of files is additionally un-framed by tools/ocf_ref.py (python zlib raw / bz2 / lzma, stream must be terminated with nothing after it; block counts, raw lengths and CRC-32 compared); apache-avro reads a fixed-shape sample; a quarter of the cases also write the same values through write_all or a WriterBuilder::with_owned_config writer (reference parser reads them back). direction B (crate reads): the reference writer produces any block partitioning incl. zero-count blocks, shuffled metadata order, extra keys, metadata map split in several blocks / negative-count blocks, avro.codec absent or \"null\", all six codecs; apache-avro-written files for its codecs; the crate's Reader (slice / BufReader / chunked) must yield exactly the values through deserialize_seed_next and through one more of its public reading APIs per case (deserialize iterator over slice / BufReader, deserialize_next over a chunked reader, deserialize_borrowed and deserialize_next_borrowed over the slice, new_and_metadata over SliceRead / ReaderRead returning the user metadata that was written), each ending exactly once the values are out. distinct by hash(file bytes)",
 	assumptions: &["codec libraries' own streaming front ends and python3's zlib/bz2/lzma are the trusted base for payload (de)compression"],
 	cases: (50_000_000, 4_000_000_000),
 	secs: (45, 900),
-	required: &["crate_written_layout_ok", "files_written_to_short_writing_sink", "reference_written_read_ok", "user_metadata_checked", "codec_key_absent_read_ok", "python_crosschecks_ok", "apache_reads_crate_ok", "crate_reads_apache_ok"],
+	required: &["crate_written_layout_ok", "files_written_to_short_writing_sink", "reference_written_read_ok", "api_variety_ok", "user_metadata_read_back_ok", "convenience_writers_ok", "user_metadata_checked", "codec_key_absent_read_ok", "python_crosschecks_ok", "apache_reads_crate_ok", "crate_reads_apache_ok"],
 	run_case,
 	once: None,
 	panics_are_violations: true,
@@ -144,6 +144,47 @@ fn crate_writes(ctx: &mut Ctx, case_seed: u64, rng: &mut Rng) {
 	}
 	ctx.count("crate_written_layout_ok");
 	ctx.count(&format!("codec:{}", wc.codec.name()));
+	// the convenience entry points produce files too: `write_all`, and a builder that owns its configuration
+	if rng.chance(1, 4) {
+		use crate::bridge::present::Present;
+		use serde_avro_fast::object_container_file_encoding::{write_all, WriterBuilder};
+		let pres = Pres::canonical();
+		let which = if rng.coin() { "write_all" } else { "with_owned_config" };
+		let alt: Result<Vec<u8>, String> = if which == "write_all" {
+			write_all(&schema, compression(wc.codec, wc.level), Vec::new(), vals.iter().map(|v| Present::new(&rs, v, &pres))).map_err(|e| e.to_string())
+		} else {
+			(|| -> Result<Vec<u8>, String> {
+				let mut b = WriterBuilder::with_owned_config(serde_avro_fast::ser::SerializerConfig::new(&schema));
+				// the configuration stays reachable through the builder
+				if !std::ptr::eq(b.serializer_config().schema(), &schema) {
+					return Err("serializer_config() is not the configuration that was passed".into());
+				}
+				let mut w = b.compression(compression(wc.codec, wc.level)).sync_marker(wc.sync).build(Vec::new()).map_err(|e| e.to_string())?;
+				for v in &vals {
+					w.serialize(Present::new(&rs, v, &pres)).map_err(|e| e.to_string())?;
+				}
+				w.into_inner().map_err(|e| e.to_string())
+			})()
+		};
+		let verdict = match &alt {
+			Err(e) => Some(format!("failed {}", err_sig(e))),
+			Ok(f) => match container::parse(f).map_err(|e| e.0).and_then(|o| {
+				if o.codec != wc.codec {
+					return Err(format!("codec in file is {}", o.codec.name()));
+				}
+				container::decode_values(&o, &rs)
+			}) {
+				Ok(got) if got == vals => None,
+				Ok(_) => Some("values-differ-for-reference-reader".to_owned()),
+				Err(m) => Some(format!("not-parseable-by-reference {}", err_sig(&m))),
+			},
+		};
+		if let Some(v) = verdict {
+			ctx.violation(format!("layout: {which} codec={} {v}", wc.codec.name()), case_seed, describe(json!({"entry_point": which, "result": alt.as_ref().map(|f| f.len()).map_err(|e| e.clone())})));
+			return;
+		}
+		ctx.count("convenience_writers_ok");
+	}
 	// independent python un-framing for a sample
 	if matches!(wc.codec, Codec::Deflate | Codec::Bzip2 | Codec::Xz | Codec::Null) && rng.chance(1, 12) {
 		let path = format!("/verif/target/run/C06/py-{}-{}.avro", ctx.shard, case_seed);
@@ -177,6 +218,173 @@ fn crate_writes(ctx: &mut Ctx, case_seed: u64, rng: &mut Rng) {
 	}
 	ctx.distinct_bytes(&[&shape_hash(&rs).to_le_bytes(), &crate::rng::fnv(&file).to_le_bytes()]);
 	ctx.sample(|| describe(json!({"file_len": file.len(), "blocks": ocf.blocks.len()})));
+}
+
+
+/// The other public ways of reading the same file: iterator, `deserialize_next`, the `_borrowed` forms for
+/// slices, and `new_and_metadata`; all must deliver what `deserialize_seed_next` delivers (C06's oracle: the values
+/// the reference writer put in, the user metadata it wrote).
+fn api_variety(ctx: &mut Ctx, case_seed: u64, rng: &mut Rng, rs: &RSchema, vals: &[Val], file: &[u8], um: &[(String, Vec<u8>)], describe: &dyn Fn(serde_json::Value) -> serde_json::Value) -> bool {
+	use crate::bridge::collect::untyped;
+	use crate::props::c11::AnyOwned;
+	use serde_avro_fast::de::read::{ReaderRead, SliceRead};
+	use serde_avro_fast::object_container_file_encoding::Reader;
+	use std::collections::BTreeMap;
+	let want: Vec<String> = vals.iter().map(|v| format!("{:?}", untyped(rs, 0, v))).collect();
+	let want_meta: BTreeMap<String, Vec<u8>> = um.iter().cloned().collect();
+	let api = rng.below(6);
+	let name = ["iterator(slice)", "iterator(bufreader)", "deserialize_next(reader)", "deserialize_borrowed(slice)", "deserialize_next_borrowed(slice)", "new_and_metadata"][api];
+	let mut got: Vec<String> = Vec::new();
+	let mut err: Option<String> = None;
+	let mut ended_twice = true;
+	let mut meta_got: Option<BTreeMap<String, Vec<u8>>> = None;
+	let cap = vals.len() + 3;
+	match api {
+		0 => match Reader::from_slice(file) {
+			Ok(mut r) => {
+				for x in r.deserialize::<AnyOwned>().take(cap) {
+					match x {
+						Ok(v) => got.push(format!("{:?}", v.0)),
+						Err(e) => {
+							err = Some(e.to_string());
+							break;
+						}
+					}
+				}
+				// a finished iterator restarted on the same reader must find nothing more
+				ended_twice = r.deserialize::<AnyOwned>().next().is_none();
+			}
+			Err(e) => err = Some(format!("open: {e}")),
+		},
+		1 => match Reader::from_reader(std::io::BufReader::with_capacity(*rng.pick(&[1usize, 13, 8192]), file)) {
+			Ok(mut r) => {
+				for x in r.deserialize::<AnyOwned>().take(cap) {
+					match x {
+						Ok(v) => got.push(format!("{:?}", v.0)),
+						Err(e) => {
+							err = Some(e.to_string());
+							break;
+						}
+					}
+				}
+				ended_twice = r.deserialize::<AnyOwned>().next().is_none();
+			}
+			Err(e) => err = Some(format!("open: {e}")),
+		},
+		2 => match Reader::from_reader(crate::io::ChunkedBufRead::new(file, crate::io::schedule(rng, file.len()))) {
+			Ok(mut r) => {
+				loop {
+					match r.deserialize_next::<AnyOwned>() {
+						Ok(Some(v)) => got.push(format!("{:?}", v.0)),
+						Ok(None) => break,
+						Err(e) => {
+							err = Some(e.to_string());
+							break;
+						}
+					}
+					if got.len() > cap {
+						break;
+					}
+				}
+				ended_twice = matches!(r.deserialize_next::<AnyOwned>(), Ok(None));
+			}
+			Err(e) => err = Some(format!("open: {e}")),
+		},
+		3 => match Reader::from_slice(file) {
+			Ok(mut r) => {
+				for x in r.deserialize_borrowed::<AnyOwned>().take(cap) {
+					match x {
+						Ok(v) => got.push(format!("{:?}", v.0)),
+						Err(e) => {
+							err = Some(e.to_string());
+							break;
+						}
+					}
+				}
+				ended_twice = r.deserialize_borrowed::<AnyOwned>().next().is_none();
+			}
+			Err(e) => err = Some(format!("open: {e}")),
+		},
+		4 => match Reader::from_slice(file) {
+			Ok(mut r) => {
+				loop {
+					match r.deserialize_next_borrowed::<AnyOwned>() {
+						Ok(Some(v)) => got.push(format!("{:?}", v.0)),
+						Ok(None) => break,
+						Err(e) => {
+							err = Some(e.to_string());
+							break;
+						}
+					}
+					if got.len() > cap {
+						break;
+					}
+				}
+				ended_twice = matches!(r.deserialize_next_borrowed::<AnyOwned>(), Ok(None));
+			}
+			Err(e) => err = Some(format!("open: {e}")),
+		},
+		_ => {
+			type M = BTreeMap<String, serde_bytes::ByteBuf>;
+			let conv = |m: M| -> BTreeMap<String, Vec<u8>> { m.into_iter().map(|(k, v)| (k, v.into_vec())).collect() };
+			let r = if rng.coin() {
+				Reader::new_and_metadata::<M>(SliceRead::new(file)).map(|(mut r, m)| {
+					let vs: Vec<_> = r.deserialize::<AnyOwned>().take(cap).collect();
+					(vs, conv(m))
+				})
+			} else {
+				Reader::new_and_metadata::<M>(ReaderRead::new(std::io::BufReader::with_capacity(7, file))).map(|(mut r, m)| {
+					let vs: Vec<_> = r.deserialize::<AnyOwned>().take(cap).collect();
+					(vs, conv(m))
+				})
+			};
+			match r {
+				Ok((vs, m)) => {
+					meta_got = Some(m);
+					for x in vs {
+						match x {
+							Ok(v) => got.push(format!("{:?}", v.0)),
+							Err(e) => {
+								err = Some(e.to_string());
+								break;
+							}
+						}
+					}
+				}
+				Err(e) => err = Some(format!("open: {e}")),
+			}
+		}
+	}
+	ctx.count(&format!("api:{name}"));
+	let meta_ok = meta_got.as_ref().map_or(true, |m| *m == want_meta);
+	if err.is_some() || got != want || !ended_twice || !meta_ok {
+		let what = if let Some(e) = &err {
+			format!("error {}", err_sig(e))
+		} else if !meta_ok {
+			"user-metadata-differs".to_owned()
+		} else if !ended_twice {
+			"not-ended-after-end".to_owned()
+		} else if got.len() != want.len() {
+			"different-number-of-values".to_owned()
+		} else {
+			"different-value".to_owned()
+		};
+		let first_bad = got.iter().zip(&want).position(|(a, b)| a != b).unwrap_or(got.len().min(want.len()));
+		ctx.violation(
+			format!("conforming-file-misread api={name} {what}"),
+			case_seed,
+			describe(json!({"api": name, "error": err, "values_got": got.len(), "values_written": want.len(), "first_difference_at": first_bad,
+				"got": got.get(first_bad).map(|s| s.chars().take(300).collect::<String>()), "want": want.get(first_bad).map(|s| s.chars().take(300).collect::<String>()),
+				"user_metadata_got": meta_got.as_ref().map(|m| m.iter().map(|(k, v)| format!("{k}={}", hex(v))).collect::<Vec<_>>()),
+				"user_metadata_written": want_meta.iter().map(|(k, v)| format!("{k}={}", hex(v))).collect::<Vec<_>>()})),
+		);
+		return false;
+	}
+	if meta_got.is_some() {
+		ctx.count("user_metadata_read_back_ok");
+	}
+	ctx.count("api_variety_ok");
+	true
 }
 
 fn crate_reads(ctx: &mut Ctx, case_seed: u64, rng: &mut Rng) {
@@ -260,6 +468,9 @@ fn crate_reads(ctx: &mut Ctx, case_seed: u64, rng: &mut Rng) {
 				}
 			}
 		}
+	}
+	if !api_variety(ctx, case_seed, rng, &rs, &vals, &file, &um, &describe) {
+		return;
 	}
 	if !write_codec_key {
 		ctx.count("codec_key_absent_read_ok");
